@@ -13,6 +13,41 @@ import (
 // parserInputs is the input distribution shared by the parser-level predicates:
 // replay / hints first, then every golden input with the entry point its test uses, then token-level mutations
 // (the malformed stream), then small hand-written probes of constructs the corpus under-represents.
+// withPrinted wraps a consumer of parserInputs: after every accepted input whose SQL() text has a DIFFERENT sequence of token kinds
+// (SQL() moved, dropped or added a token: a clause printed in another order, an optional word, a parenthesis), the printed text is
+// passed on as an input of its own — it is an accepted input like any other, and the position properties must hold on it too
+func withPrinted(each func(e *entry, s string, origin string)) func(e *entry, s string, origin string) {
+	kinds := func(s string) string {
+		toks, ok := tokenSpans(s)
+		if !ok {
+			return "!"
+		}
+		var sb strings.Builder
+		for _, t := range toks {
+			sb.WriteString(string(t.Kind))
+			sb.WriteByte(0)
+		}
+		return sb.String()
+	}
+	return func(e *entry, s string, origin string) {
+		each(e, s, origin)
+		if origin == "printed" {
+			return
+		}
+		r := safeParse(e, s)
+		if r.hung || r.panicked != nil || r.err != nil {
+			return
+		}
+		sql, p := sqlAll(r.nodes)
+		if p != nil || sql == s {
+			return
+		}
+		if k := kinds(sql); k != "!" && k != kinds(s) {
+			each(e, sql, "printed")
+		}
+	}
+}
+
 func parserInputs(o *propOpts, each func(e *entry, s string, origin string)) {
 	if o.single != nil {
 		b, _ := unhex(o.single.Input)
